@@ -251,8 +251,25 @@ func C19(h ProxyHooks) func(*hx.Ctx) *hx.Outcome {
 			}
 			o.Fail(cls, "the client received %d bytes, the caster sent %d; first difference at %d", len(clientPeer.ReadBuf), len(down), d)
 		}
+		// The report at quiescence.  The calls go through a second scheduler run so
+		// that a lock which the session left locked for good ends as a deadlock
+		// verdict of that run (no page: the page checks are skipped) instead of
+		// blocking this worker on a real mutex.
+		var q [][]byte
+		var page []byte
+		pageDone := false
+		s2 := c.NewSim()
+		s2.Run(func() {
+			q = h.QueueRaw()
+			page = h.Status()
+			pageDone = true
+		})
+		if !pageDone {
+			o.Probe("status-request-after-the-session-did-not-return")
+			o.Nontrivial = len(up)+len(down) > 0
+			return o
+		}
 		// the report lists only what the client actually sent
-		q := h.QueueRaw()
 		var qcat []byte
 		for _, r := range q {
 			qcat = append(qcat, r...)
@@ -266,8 +283,6 @@ func C19(h ProxyHooks) func(*hx.Ctx) *hx.Outcome {
 				o.Fail("C19/report-not-relayed-traffic", "the messages listed in the report (%d messages, %d bytes) are not a contiguous run of the client's stream: %s", len(q), len(qcat), hexShort(qcat))
 			}
 		}
-		// the page at quiescence (outside the scheduler: plain call)
-		page := h.Status()
 		if n := countHeaders(page); n != len(q) {
 			o.Fail("C19/report-entries", "the status page shows %d message entries, the queue holds %d", n, len(q))
 		}
